@@ -147,6 +147,14 @@ CHECKS = {
         "unsubscription / deregistration or outside an attendance.",
         "Sampled histories (<= 80 steps, 3 consumers); no verdict for attendances before a subscription's first interval has elapsed; identical requests share an id.",
     ),
+    "C04": (
+        "fault-injection fuzzing of the real receive loop: hypothesis streams of valid traffic with random, grammar-based and mutated bad frames on a scripted socket, judged by loop liveness and a differential twin station",
+        "A full station (GN + BTP routers, CA / DEN / VRU reception, optional LDM, security off and on) reads generated streams through the real "
+        "RawLinkLayer.receive() thread from a scripted socket; the loop must consume every frame and end only at the scripted OSError, own-MAC "
+        "and foreign-unicast frames must never reach the router, and a twin station that gets only the valid frames must end with identical "
+        "facility deliveries, location-table entries, LDM objects and trust store.",
+        "Sampled streams (<= 14 frames) from four bad-frame generators; bad frames use a source disjoint from the valid ones; forwarding output not compared; the C-V2X loop (vendor library absent) is covered by reading only.",
+    ),
 }
 
 NOT_APPLICABLE = {
